@@ -1,7 +1,7 @@
 // C14 harness (c): extraction on views of depth 1..4.
 //   c14_extract prog=<name> shapes=<s0;s1;..> <attributes>
 //     -> ok leaves=<for every extracted operand: index of the host leaf array with the same ADDRESS, -1 if none>
-//           nfun=<number of functors in get_function_composition(view)>
+//           nfun=<number of functors in get_function_composition(view)>  arity=<its static arity>
 //           shape= data=      host evaluation of the view
 //           ashape= adata=    evaluation of fn::apply(get_function_composition(view), get_function_operands(view))
 //   c14_graph prog=<name> shapes=..   -> ok nodes=<id:L<leaf index> | id:F<arity>[operand ids]>,... edges=<src>dst>,...
@@ -78,7 +78,9 @@ template <typename view_t> static std::string extract_(const view_t& v, const st
     size_t nfun = 1;
     using f_t = meta::remove_cvref_t<decltype(f)>;
     if constexpr (has_functors<f_t>::value) nfun = meta::len_v<meta::remove_cvref_t<decltype(f.functors)>>;
-    std::string ans = "ok leaves=" + fmt(idx) + " nfun=" + std::to_string(nfun) + " shape=" + fmt(hshape) + " data=" + fmt(hdata);
+    // arity of the extracted function (fn::apply demands arity == number of extracted operands)
+    std::string ans = "ok leaves=" + fmt(idx) + " nfun=" + std::to_string(nfun) + " arity=" + std::to_string((long long)f_t::arity)
+                    + " shape=" + fmt(hshape) + " data=" + fmt(hdata);
     auto r = fn::apply(f, operands);
     uvec ashape; std::vector<long long> adata;
     if constexpr (meta::is_maybe_v<decltype(r)>) {
@@ -123,6 +125,12 @@ std::string handle(const std::string& op, const Args& a) {
     PROG("negative",    view::negative(x0))
     PROG("matmul",      view::matmul(x0, x1))
     PROG("concatenate", view::concatenate(x0, x1, AXIS))
+    if (prog == "raw_matmul") {
+        // bounded C arrays as leaves (kept by reference in the operand tuple: get_function_operands_t, functor.hpp:805-807)
+        int ra[2][3] = {{0,1,2},{3,4,5}}; int rb[3][2] = {{1000,1001},{1002,1003},{1004,1005}};
+        leaves = {(const void*)&ra, (const void*)&rb};
+        PROG("raw_matmul", view::matmul(ra, rb))
+    }
 #elif C14_GROUP == 2
     PROG("where",       view::where(x0, x1, x2))
     PROG("vstack",      view::vstack(x0, x1))
@@ -160,6 +168,27 @@ std::string handle(const std::string& op, const Args& a) {
         GRAPH("al_add_mm",      view::add(view::multiply(a0, a1), view::multiply(a1, a2)))
         GRAPH("al_neg_add_mul", view::negative(view::add(view::multiply(a0, a1), a1)))
     }
+#elif C14_GROUP == 8
+    // depth 2, the sub-view in either operand position of a binary node (ufunc / matmul / concatenate)
+    GRAPH("sub_x_neg",     view::subtract(x0, view::negative(x1)))
+    PROG("matmul_x_tr",    view::matmul(x0, view::transpose(x1, AXES)))
+    PROG("matmul_tr_x",    view::matmul(view::transpose(x0, AXES), x1))
+    PROG("concat_x_flip",  view::concatenate(x0, view::flip(x1, AXIS), AXIS))
+    PROG("concat_flip_x",  view::concatenate(view::flip(x0, AXIS), x1, AXIS))
+#elif C14_GROUP == 9
+    // ternary node with the sub-view in each position; depth 3 with nested non-first positions
+    PROG("where_v0",       view::where(view::negative(x0), x1, x2))
+    PROG("where_v1",       view::where(x0, view::negative(x1), x2))
+    PROG("where_v2",       view::where(x0, x1, view::negative(x2)))
+    PROG("add_x_mul_x_neg",view::add(x0, view::multiply(x1, view::negative(x2))))
+    PROG("mul_add_x_neg_x",view::multiply(view::add(x0, view::negative(x1)), x2))
+#elif C14_GROUP == 10
+    // depth 3 / 4 with sub-views in non-first positions, and a depth 4 chain of binary ufuncs in first positions
+    PROG("sub_x_neg_tr",   view::subtract(x0, view::negative(view::transpose(x1, AXES))))
+    PROG("d4_neg_add_x_mul_neg", view::negative(view::add(x0, view::multiply(view::negative(x1), x2))))
+    PROG("d4_add_nmn_sxn", view::add(view::negative(view::multiply(view::negative(x0), x1)), view::subtract(x2, view::negative(x3))))
+    PROG("d4_sum_add_x_tr_neg", view::reduce_add(view::add(x0, view::transpose(view::negative(x1), AXES)), AXIS, DROP))
+    PROG("d4_neg_sub_mul_neg", view::negative(view::subtract(view::multiply(view::negative(x0), x1), x2)))
 #endif
     return "unknown-prog";
 }
